@@ -103,8 +103,13 @@ theorem step_heapAdm (q : Quirks) (S : Schema) (a : Alloc σ) (ha : a.Valid) (st
         have b := (HeapAdm.ensure2 a st xs xt).trans (HeapAdm.frame k.2)
         split
         · exact b
-        · exact b.trans (HeapAdm.shrink (fun x hx => by simpa using hx) (fun o ho => by simpa using ho)
-            (fun o ho => by simpa using ho))
+        · have w : HeapAdm (SG.addFact q S a S.fuel (SG.ensure2 a st xs xt).1 f (SG.ensure2 a st xs xt).2.1
+              (SG.ensure2 a st xs xt).2.2 false).h
+              ((SG.addFact q S a S.fuel (SG.ensure2 a st xs xt).1 f (SG.ensure2 a st xs xt).2.1
+              (SG.ensure2 a st xs xt).2.2 false).h.write S f s t) :=
+            HeapAdm.shrink (fun x hx => by simpa using hx) (fun o ho => by simpa using ho)
+              (fun o ho => by simpa using ho)
+          exact (b.trans w).trans (HeapAdm.collect q _)
     · exact HeapAdm.refl _
   | mkq k c dom =>
     dsimp only
